@@ -1,5 +1,130 @@
 /-
-C17 — property theorems (stub: no theorem stated yet, so no obligation is counted).
+C17 — Chunk merge strategies never lose coverage.
+PROPERTY THEOREMS ONLY.  All statements are for every list of chunks (any length, any offsets, including
+empty, nested, touching, duplicate, zero-length and inverted chunks) and every threshold (incl. negative).
 -/
+import Hts.Lemmas.Merge
 namespace Hts.Props.C17
+open Hts.Model.Merge
+
+/-! ### sortedness of the result -/
+theorem adjacent_sorted (cs : List Chunk) (h : SortedB cs) : SortedB (adjacent cs) := by
+  cases cs with
+  | nil => trivial
+  | cons c cs => exact mergeLoop_sorted _ c cs h
+
+theorem compressor_sorted (near : Int) (cs : List Chunk) (h : SortedB cs) : SortedB (compressor near cs) := by
+  cases cs with
+  | nil => trivial
+  | cons c cs => exact mergeLoop_sorted _ c cs h
+
+theorem squash_sorted (cs : List Chunk) : SortedB (squash cs) := by
+  cases cs <;> trivial
+
+theorem identity_sorted (cs : List Chunk) (h : SortedB cs) : SortedB (identity cs) := h
+
+/-! ### coverage is never lost -/
+theorem adjacent_covers (cs : List Chunk) (p : Int) (h : SortedB cs) (hc : covers cs p) :
+    covers (adjacent cs) p := by
+  cases cs with
+  | nil => exact hc
+  | cons c cs => exact mergeLoop_covers _ c cs p h hc
+
+theorem compressor_covers (near : Int) (cs : List Chunk) (p : Int) (h : SortedB cs) (hc : covers cs p) :
+    covers (compressor near cs) p := by
+  cases cs with
+  | nil => exact hc
+  | cons c cs => exact mergeLoop_covers _ c cs p h hc
+
+theorem squash_covers (cs : List Chunk) (p : Int) (h : SortedB cs) (hc : covers cs p) :
+    covers (squash cs) p := by
+  cases cs with
+  | nil => exact hc
+  | cons c cs =>
+    obtain ⟨x, hx, hp⟩ := hc
+    refine ⟨_, List.mem_singleton.2 rfl, ?_⟩
+    have hm := maxEnd_ge c.e cs
+    unfold covers1 at *
+    cases hx with
+    | head => exact ⟨hp.1, by simp only; omega⟩
+    | tail _ hmem =>
+      have := sortedB_head_le h x hmem
+      have := hm.2 x hmem
+      exact ⟨by simp only; omega, by simp only; omega⟩
+
+theorem identity_covers (cs : List Chunk) (p : Int) (hc : covers cs p) : covers (identity cs) p := hc
+
+/-! ### Adjacent covers exactly the input's positions, with separated neighbours -/
+theorem adjacent_covers_exactly (cs : List Chunk) (p : Int) (h : SortedB cs) :
+    covers (adjacent cs) p ↔ covers cs p := by
+  constructor
+  · intro hc
+    cases cs with
+    | nil => exact hc
+    | cons c cs => exact mergeLoop_adj_covers_only c cs p hc
+  · exact adjacent_covers cs p h
+
+/-- neighbours of the result are strictly separated: `left.End < right.Begin` -/
+theorem adjacent_separated (cs : List Chunk) : NoClose adjClose (adjacent cs) := by
+  cases cs with
+  | nil => trivial
+  | cons c cs => exact mergeLoop_noClose _ adjClose_closeB c cs
+
+/-! ### Squash returns the single enclosing chunk -/
+theorem squash_enclosing (c : Chunk) (cs : List Chunk) :
+    ∃ e, squash (c :: cs) = [{ b := c.b, e := e }] ∧
+      (∀ x, x ∈ c :: cs → vOff x.e ≤ vOff e) ∧ (∃ x, x ∈ c :: cs ∧ e = x.e) := by
+  refine ⟨maxEnd c.e cs, rfl, ?_, ?_⟩
+  · intro x hx
+    have hm := maxEnd_ge c.e cs
+    cases hx with
+    | head => exact hm.1
+    | tail _ hmem => exact hm.2 x hmem
+  · rcases maxEnd_mem c.e cs with h | ⟨x, hx, hxe⟩
+    · exact ⟨c, List.mem_cons_self, h⟩
+    · exact ⟨x, List.mem_cons_of_mem _ hx, hxe⟩
+
+theorem squash_empty : squash [] = [] := rfl
+
+/-! ### a Compressor leaves no two neighbours closer than its threshold -/
+theorem compressor_gap (near : Int) (cs : List Chunk) : NoClose (nearClose near) (compressor near cs) := by
+  cases cs with
+  | nil => trivial
+  | cons c cs => exact mergeLoop_noClose _ (nearClose_closeB near) c cs
+
+/-! ### applying a strategy twice changes nothing -/
+theorem adjacent_idempotent (cs : List Chunk) : adjacent (adjacent cs) = adjacent cs := by
+  cases cs with
+  | nil => rfl
+  | cons c cs =>
+    obtain ⟨hd, tl, e, _⟩ := mergeLoop_head adjClose c cs
+    show adjacent (mergeLoop adjClose c cs) = mergeLoop adjClose c cs
+    rw [e]
+    exact mergeLoop_idem _ adjClose_closeB c cs hd tl e
+
+theorem compressor_idempotent (near : Int) (cs : List Chunk) :
+    compressor near (compressor near cs) = compressor near cs := by
+  cases cs with
+  | nil => rfl
+  | cons c cs =>
+    obtain ⟨hd, tl, e, _⟩ := mergeLoop_head (nearClose near) c cs
+    show compressor near (mergeLoop (nearClose near) c cs) = mergeLoop (nearClose near) c cs
+    rw [e]
+    exact mergeLoop_idem _ (nearClose_closeB near) c cs hd tl e
+
+theorem squash_idempotent (cs : List Chunk) : squash (squash cs) = squash cs := by
+  cases cs with
+  | nil => rfl
+  | cons c cs => rfl
+
+theorem identity_idempotent (cs : List Chunk) : identity (identity cs) = identity cs := rfl
+
+/-! ### non-vacuity: a sorted list with nested, touching, duplicate, zero-length chunks (tests) -/
+def ex : List Chunk :=
+  [⟨⟨0, 0⟩, ⟨10, 5⟩⟩, ⟨⟨2, 0⟩, ⟨3, 0⟩⟩, ⟨⟨10, 5⟩, ⟨12, 0⟩⟩, ⟨⟨10, 5⟩, ⟨12, 0⟩⟩, ⟨⟨20, 0⟩, ⟨20, 0⟩⟩, ⟨⟨30, 7⟩, ⟨31, 0⟩⟩]
+example : SortedB ex := by simp [SortedB, ex, vOff]
+example : adjacent ex = [⟨⟨0, 0⟩, ⟨12, 0⟩⟩, ⟨⟨20, 0⟩, ⟨20, 0⟩⟩, ⟨⟨30, 7⟩, ⟨31, 0⟩⟩] := by decide
+example : covers ex (11 * 65536) := ⟨⟨⟨10, 5⟩, ⟨12, 0⟩⟩, by decide, by simp [covers1, vOff]⟩
+example : compressor 9 ex = [⟨⟨0, 0⟩, ⟨20, 0⟩⟩, ⟨⟨30, 7⟩, ⟨31, 0⟩⟩] := by decide
+
 end Hts.Props.C17
